@@ -748,6 +748,17 @@ def main(ck: Check):
                 jobs = rng.sample(link_jobs(), rng.choice([0, 1, 1, 1, 2]))
                 add_case("linkSkill", lname, armor, rng.choice([0, 1, 2, 3, 6, 12, 13, 13, 20, 28]),
                          jobs=[j.value for j in jobs], replay=rp and ai < 2)
+                if ai == 0:
+                    # several pre-assigned jobs that provide THE SAME link skill (one slot, whose limit is 1)
+                    groups: dict = {}
+                    for j in link_jobs():
+                        groups.setdefault(data("links").get_index(j), []).append(j)
+                    shared = [g for g in groups.values() if len(g) >= 2]
+                    if shared:
+                        g = rng.choice(shared)
+                        same = rng.sample(g, min(len(g), rng.choice([2, 2, 3])))
+                        add_case("linkSkill", lname, armor, rng.choice([2, 3, 6, 13]),
+                                 jobs=[j.value for j in same] + [j.value for j in jobs[:1] if j not in same], replay=False)
                 # union squad
                 jobs = rng.sample(squad_jobs(), rng.choice([0, 1, 1, 2, 3]))
                 add_case("unionSquad", lname, armor, rng.choice([0, 1, 2, 5, 7, 10, 15, 30, 36, 47, 48]),
